@@ -345,6 +345,7 @@ func (e *Eng) evalCallInner(st *State, call *ast.CallExpr) []*Val {
 			e.oblige(st, "modifies", "callee-unknown "+shortKey(key), "false", call.Pos())
 		}
 		e.havocHeap(st)
+		e.havocClosureAssigned(st)
 		return results
 	}
 	if e.con != nil && e.con.NoPanic && !(con.NoPanic || con.AssumeNoPanic) {
@@ -440,6 +441,7 @@ func (e *Eng) evalCallInner(st *State, call *ast.CallExpr) []*Val {
 		} else {
 			e.havocHeap(st)
 		}
+		e.havocClosureAssigned(st)
 	}
 	savedOld := e.oldState
 	e.oldState = preState
@@ -492,6 +494,63 @@ func (e *Eng) callIsPure(call *ast.CallExpr) bool {
 	}
 	con := e.contracts.ByKey[key]
 	return con != nil && con.Pure
+}
+
+// closureAssignedVars: variables of the enclosing function that some function literal assigns. A literal that is
+// handed to a callee (or stored) may run during any later call, so these variables are unknown after every call
+// to a function that is not known to be pure (literals run by the engine itself - deferred closures, immediately
+// invoked ones, `runs` arguments - are executed explicitly and need no havoc).
+func (e *Eng) closureAssignedVars() map[types.Object]bool {
+	if e.closAssigned != nil {
+		return e.closAssigned
+	}
+	e.closAssigned = map[types.Object]bool{}
+	body := ast.Node(e.fnBody())
+	ast.Inspect(body, func(n ast.Node) bool {
+		switch x := n.(type) {
+		case *ast.DeferStmt:
+			return false // deferred literals run at exit only (modelled explicitly)
+		case *ast.GoStmt:
+			return false // handled by execGo
+		case *ast.CallExpr:
+			if _, ok := ast.Unparen(x.Fun).(*ast.FuncLit); ok {
+				// immediately invoked: inlined; still inspect arguments
+				for _, a := range x.Args {
+					ast.Inspect(a, func(ast.Node) bool { return true })
+				}
+				return false
+			}
+		case *ast.FuncLit:
+			vars, _ := e.assignedVars(e.info, x.Body)
+			for o := range vars {
+				if o != nil && (o.Pos() < x.Pos() || o.Pos() >= x.End()) {
+					e.closAssigned[o] = true
+				}
+			}
+			return false
+		}
+		return true
+	})
+	return e.closAssigned
+}
+
+func (e *Eng) havocClosureAssigned(st *State) {
+	for o := range e.closureAssignedVars() {
+		if _, ok := st.vars[o]; ok {
+			if _, isGhost := e.ghostObjs()[o]; isGhost {
+				continue
+			}
+			st.vars[o] = e.freshVal("esc."+o.Name(), o.Type())
+		}
+	}
+}
+
+func (e *Eng) ghostObjs() map[types.Object]bool {
+	m := map[types.Object]bool{}
+	for _, g := range e.ghosts {
+		m[g] = true
+	}
+	return m
 }
 
 func (e *Eng) havocAddrTaken(st *State, call *ast.CallExpr) {
